@@ -1,4 +1,2048 @@
+//! C13 — in-place conversion equals out-of-place conversion and guards restore on drop.
+//!
+//! E2 operation-sequence search on the *real* guards (DESIGN.md §3.1, §4 C13):
+//!
+//! * `guard-slice`, `guard-single`: every buffer of length 0..=3 over a 4-colour set (resp. every
+//!   single colour of the set), original type U in {Srgb<f32>, Hsl<f32>, Lab<f32>, Srgba<f32>,
+//!   Srgb<f64>}, four layout-compatible target types per U that form a clique of conversions with
+//!   U; ALL sequences of guard operations up to depth D (5 quick / 6 thorough) are explored
+//!   breadth first. A sequence is executed by rebuilding the buffer and replaying it on the real
+//!   `FromColorMutGuard` / `FromColorUnclampedMutGuard` (held in a macro-generated enum because
+//!   every step changes the guard's type). Merged mode: canonical state = (typestate, buffer
+//!   bits); a state already reached at a smaller-or-equal depth is not expanded again (sound:
+//!   the guard is `repr(transparent)` over `Option<&mut T>`, it holds nothing but the borrow).
+//!   Unmerged mode: every sequence up to a smaller depth, no dedup, every step compared; its set
+//!   of reachable canonical states must equal the merged one.
+//! * `vec`, `box`: the one-shot owning forms `Vec<T>::from_color(Vec<U>)`, `from_color_unclamped`,
+//!   `into_color`, `cast::map_vec_in_place` / `map_slice_box_in_place`, every (len 0..=4,
+//!   capacity len..=len+3) shape, every chain of up to 3 (thorough 4) of them.
+//!
+//! Reference model: a plain list of component arrays (as bit patterns) + a type tag. Every
+//! converting operation maps each element with the ORDINARY out-of-place conversion
+//! (`T::from_color` for the clamping API / guards, `T::from_color_unclamped` for the unclamped
+//! ones); restore/drop convert back to U in one step; forget changes nothing.
+//!
+//! Which flavour restores how is the documented behaviour of the guard types:
+//! `FromColorMutGuard` — "restores the guarded colors to their original type" using the clamping
+//! `FromColorMut` (= `U::from_color`); `FromColorUnclampedMutGuard` — "restores ... without
+//! clamping" (= `U::from_color_unclamped`); `into_unclamped_guard` — "a guard that does not clamp
+//! the colors after restoring"; `into_clamped_guard` — "a guard that clamps the colors after
+//! restoring"; `then_into_color_mut` gives a clamping guard, `then_into_color_unclamped_mut` an
+//! unclamped one, whatever the flavour of the guard they are called on. The property only says
+//! "equal to converting the current contents back in a single step"; the flavour of that step is
+//! the guard's.
+//!
+//! Comparison is bit for bit, except that every NaN counts as the same value (payload/sign of a
+//! NaN produced by the same arithmetic may legitimately depend on how a call site was compiled).
+use palette::cast::{self, ArrayCast};
+use palette::convert::{FromColor, FromColorMutGuard, FromColorUnclamped, FromColorUnclampedMutGuard, IntoColor, IntoColorMut, IntoColorUnclampedMut};
+use palette::encoding::Srgb as S;
+use palette::white_point::D65;
+use palette::{Alpha, Hsl, Hsv, Hwb, Lab, Lch, Luv, Oklab, Oklch, Srgb, Xyz, Yxy};
+use pv::{json, Collector, Ctx, Mode, Tier, Value};
+use std::collections::{HashMap, HashSet};
+use std::hash::{BuildHasherDefault, Hasher};
+
+// ---------------------------------------------------------------------------------------
+// bits
+
+trait Comp: Copy + 'static {
+    fn bits(self) -> u64;
+    fn from_bits64(b: u64) -> Self;
+}
+impl Comp for f32 {
+    #[inline]
+    fn bits(self) -> u64 {
+        if self.is_nan() {
+            0x7fc0_0000
+        } else {
+            self.to_bits() as u64
+        }
+    }
+    #[inline]
+    fn from_bits64(b: u64) -> Self {
+        f32::from_bits(b as u32)
+    }
+}
+impl Comp for f64 {
+    #[inline]
+    fn bits(self) -> u64 {
+        if self.is_nan() {
+            0x7ff8_0000_0000_0000
+        } else {
+            self.to_bits()
+        }
+    }
+    #[inline]
+    fn from_bits64(b: u64) -> Self {
+        f64::from_bits(b)
+    }
+}
+
+trait Arr: Copy + 'static {
+    const N: usize;
+    fn put(&self, out: &mut [u64]);
+    fn get(b: &[u64]) -> Self;
+}
+impl<F: Comp, const N: usize> Arr for [F; N] {
+    const N: usize = N;
+    #[inline]
+    fn put(&self, out: &mut [u64]) {
+        for i in 0..N {
+            out[i] = self[i].bits();
+        }
+    }
+    #[inline]
+    fn get(b: &[u64]) -> Self {
+        core::array::from_fn(|i| F::from_bits64(b[i]))
+    }
+}
+
+/// A borrowed colour container seen as a slice of component arrays (through palette::cast).
+trait View {
+    type A: Arr;
+    fn arrays(&self) -> &[Self::A];
+    fn arrays_mut(&mut self) -> &mut [Self::A];
+}
+impl<T> View for [T]
+where
+    T: ArrayCast,
+    T::Array: Arr,
+{
+    type A = T::Array;
+    #[inline]
+    fn arrays(&self) -> &[T::Array] {
+        cast::into_array_slice(self)
+    }
+    #[inline]
+    fn arrays_mut(&mut self) -> &mut [T::Array] {
+        cast::into_array_slice_mut(self)
+    }
+}
+impl<T> View for T
+where
+    T: ArrayCast,
+    T::Array: Arr,
+{
+    type A = T::Array;
+    #[inline]
+    fn arrays(&self) -> &[T::Array] {
+        core::slice::from_ref(cast::into_array_ref(self))
+    }
+    #[inline]
+    fn arrays_mut(&mut self) -> &mut [T::Array] {
+        core::slice::from_mut(cast::into_array_mut(self))
+    }
+}
+
+// ---------------------------------------------------------------------------------------
+// operations, observations
+
+/// Type indices: 0 = the original type U, 1..=nt = the target types of the family.
+#[derive(Clone, Copy, PartialEq, Eq, Debug, Hash)]
+enum Op {
+    /// `buf.into_color_mut::<T>()` (false) / `buf.into_color_unclamped_mut::<T>()` (true)
+    Start(u8, bool),
+    /// observe through `Deref`
+    Deref,
+    /// `guard[i] = FIXED` through `DerefMut`
+    Mutate(u8),
+    /// `guard.then_into_color_mut::<C>()` (false) / `then_into_color_unclamped_mut::<C>()` (true)
+    Then(u8, bool),
+    /// `into_unclamped_guard()` on a clamping guard, `into_clamped_guard()` on an unclamped one
+    Switch,
+    Restore,
+    Drop,
+    Forget,
+}
+
+const OWNED: u8 = 0;
+const CLAMPED: u8 = 1;
+const UNCLAMPED: u8 = 2;
+const MAXB: usize = 12; // 3 elements x 4 components
+const MAXD: usize = 8;
+
+/// Canonical state = model state: typestate + buffer contents as bit patterns.
+#[derive(Clone, Copy, PartialEq, Eq, Hash, Debug)]
+struct Key {
+    tag: u8,
+    flav: u8,
+    n: u8,
+    bits: [u64; MAXB],
+}
+impl Key {
+    fn bits(&self) -> &[u64] {
+        &self.bits[..self.n as usize]
+    }
+}
+
+#[derive(Clone, Copy)]
+struct Path {
+    n: u8,
+    ops: [Op; MAXD],
+}
+impl Path {
+    fn new() -> Self {
+        Path { n: 0, ops: [Op::Deref; MAXD] }
+    }
+    fn push(&self, op: Op) -> Self {
+        let mut p = *self;
+        p.ops[p.n as usize] = op;
+        p.n += 1;
+        p
+    }
+    fn ops(&self) -> &[Op] {
+        &self.ops[..self.n as usize]
+    }
+}
+
+#[derive(Clone, Copy, Debug)]
+struct Step {
+    tag: u8,
+    flav: u8,
+    addr_ok: bool,
+    len_ok: bool,
+    sent_ok: bool,
+    ret_ok: bool,
+    off: usize,
+    n: usize,
+}
+
+/// What an execution of a sequence on the real code exposes: one `Step` for the initial buffer
+/// and one after every operation.
+#[derive(Default)]
+struct Sink {
+    steps: Vec<Step>,
+    bits: Vec<u64>,
+    err: Option<&'static str>,
+    ret_pending: Option<bool>,
+    ret_bits: Vec<u64>,
+    /// steps that agreed with the model only up to the sign of a zero (not cleared by `clear`)
+    zero_sign: u64,
+}
+impl Sink {
+    fn clear(&mut self) {
+        self.steps.clear();
+        self.bits.clear();
+        self.err = None;
+        self.ret_pending = None;
+        self.ret_bits.clear();
+    }
+    fn push<A: Arr>(&mut self, tag: u8, flav: u8, arrs: &[A], addr_ok: bool, len_ok: bool, sent_ok: bool) {
+        let off = self.bits.len();
+        let n = arrs.len() * A::N;
+        self.bits.resize(off + n, 0);
+        for (i, a) in arrs.iter().enumerate() {
+            a.put(&mut self.bits[off + i * A::N..off + (i + 1) * A::N]);
+        }
+        let mut ret_ok = true;
+        if let Some(ok) = self.ret_pending.take() {
+            ret_ok = ok && self.ret_bits[..] == self.bits[off..off + n];
+        }
+        self.steps.push(Step { tag, flav, addr_ok, len_ok, sent_ok, ret_ok, off, n });
+    }
+    fn step_bits(&self, k: usize) -> &[u64] {
+        let s = &self.steps[k];
+        &self.bits[s.off..s.off + s.n]
+    }
+}
+
+/// Observation of the owning forms: after every operation the container's raw parts.
+#[derive(Clone, Copy, Debug)]
+struct OStep {
+    tag: u8,
+    ptr: usize,
+    len: usize,
+    cap: usize,
+    calls: usize,
+    off: usize,
+    n: usize,
+}
+#[derive(Default)]
+struct OSink {
+    steps: Vec<OStep>,
+    bits: Vec<u64>,
+}
+impl OSink {
+    fn clear(&mut self) {
+        self.steps.clear();
+        self.bits.clear();
+    }
+    fn push<A: Arr>(&mut self, tag: u8, ptr: usize, len: usize, cap: usize, calls: usize, arrs: &[A]) {
+        let off = self.bits.len();
+        let n = arrs.len() * A::N;
+        self.bits.resize(off + n, 0);
+        for (i, a) in arrs.iter().enumerate() {
+            a.put(&mut self.bits[off + i * A::N..off + (i + 1) * A::N]);
+        }
+        self.steps.push(OStep { tag, ptr, len, cap, calls, off, n });
+    }
+    fn step_bits(&self, k: usize) -> &[u64] {
+        let s = &self.steps[k];
+        &self.bits[s.off..s.off + s.n]
+    }
+}
+
+type ConvFn = fn(&[u64], &mut [u64]);
+type ExecFn = fn(&[u64], &[u64], &[Op], &mut Sink);
+/// (initial elements, extra capacity, ops as (target type, how), sink)
+type OExecFn = fn(&[u64], usize, &[(u8, u8)], &mut OSink);
+
+// how an owning conversion is spelled
+const HOW_NAMES: [&str; 4] = ["from_color", "from_color_unclamped", "into_color", "map_in_place"];
+const HOW_UNCL: [bool; 4] = [false, true, false, true];
+
+// ---------------------------------------------------------------------------------------
+// the typed part: macro-generated per family
+
+macro_rules! w {
+    (slice, $t:ty) => { [$t] };
+    (single, $t:ty) => { $t };
+}
+macro_rules! mid {
+    (slice, $s:expr) => { $s };
+    (single, $s:expr) => { &mut $s[0] };
+}
+
+macro_rules! then_impl {
+    ($kind:ident, $u:ty, $t:ty, [$(($ctag:ident, $c:ty)),*]) => {
+        impl<'a> Then<'a> for FromColorMutGuard<'a, w!($kind, $t), w!($kind, $u)> {
+            #[inline(never)]
+            fn then(self, c: u8, uncl: bool) -> G<'a> {
+                let mut k = 0u8;
+                $(
+                    k += 1;
+                    if c == k {
+                        return if uncl {
+                            G::U(GU::$ctag(self.then_into_color_unclamped_mut::<w!($kind, $c)>()))
+                        } else {
+                            G::C(GC::$ctag(self.then_into_color_mut::<w!($kind, $c)>()))
+                        };
+                    }
+                )*
+                let _ = k;
+                unreachable!("then: bad type index")
+            }
+        }
+        impl<'a> Then<'a> for FromColorUnclampedMutGuard<'a, w!($kind, $t), w!($kind, $u)> {
+            #[inline(never)]
+            fn then(self, c: u8, uncl: bool) -> G<'a> {
+                let mut k = 0u8;
+                $(
+                    k += 1;
+                    if c == k {
+                        return if uncl {
+                            G::U(GU::$ctag(self.then_into_color_unclamped_mut::<w!($kind, $c)>()))
+                        } else {
+                            G::C(GC::$ctag(self.then_into_color_mut::<w!($kind, $c)>()))
+                        };
+                    }
+                )*
+                let _ = k;
+                unreachable!("then: bad type index")
+            }
+        }
+    };
+}
+
+/// Guards over `w!(kind, U)` for every target type, and the executor of an operation sequence.
+macro_rules! family {
+    ($m:ident, $kind:ident, $arr:ty, $u:ty, $targets:tt) => {
+        family!(@go $m, $kind, $arr, $u, $targets, $targets);
+    };
+    (@go $m:ident, $kind:ident, $arr:ty, $u:ty, [$(($tag:ident, $t:ty)),*], $all:tt) => {
+        pub mod $m {
+            use super::*;
+            type U = $u;
+            type A = $arr;
+            type Cont = w!($kind, $u);
+
+            pub enum GC<'a> { $( $tag(FromColorMutGuard<'a, w!($kind, $t), Cont>), )* }
+            pub enum GU<'a> { $( $tag(FromColorUnclampedMutGuard<'a, w!($kind, $t), Cont>), )* }
+            /// A live guard of either flavour over any of the target types.
+            pub enum G<'a> { C(GC<'a>), U(GU<'a>) }
+
+            pub trait Then<'a> { fn then(self, c: u8, uncl: bool) -> G<'a>; }
+            $( then_impl!($kind, $u, $t, $all); )*
+
+            #[inline(never)]
+            fn start<'a>(buf: &'a mut Cont, t: u8, uncl: bool) -> G<'a> {
+                let mut k = 0u8;
+                $(
+                    k += 1;
+                    if t == k {
+                        return if uncl {
+                            G::U(GU::$tag(IntoColorUnclampedMut::<w!($kind, $t)>::into_color_unclamped_mut(buf)))
+                        } else {
+                            G::C(GC::$tag(IntoColorMut::<w!($kind, $t)>::into_color_mut(buf)))
+                        };
+                    }
+                )*
+                let _ = k;
+                unreachable!("start: bad type index")
+            }
+            fn typestate(g: &G) -> (u8, u8) {
+                let mut k = 0u8;
+                match g {
+                    G::C(x) => { $( k += 1; if let GC::$tag(_) = x { return (k, CLAMPED); } )* }
+                    G::U(x) => { $( k += 1; if let GU::$tag(_) = x { return (k, UNCLAMPED); } )* }
+                }
+                let _ = k;
+                unreachable!()
+            }
+            /// What the guard derefs to, as component arrays.
+            fn view<'g>(g: &'g G<'_>) -> &'g [A] {
+                match g {
+                    $( G::C(GC::$tag(x)) => View::arrays(&**x), )*
+                    $( G::U(GU::$tag(x)) => View::arrays(&**x), )*
+                }
+            }
+            /// `guard[i] = value` through DerefMut.
+            fn mutate(g: &mut G<'_>, i: usize, v: A) {
+                match g {
+                    $( G::C(GC::$tag(x)) => View::arrays_mut(&mut **x)[i] = v, )*
+                    $( G::U(GU::$tag(x)) => View::arrays_mut(&mut **x)[i] = v, )*
+                }
+            }
+            fn then<'a>(g: G<'a>, c: u8, uncl: bool) -> G<'a> {
+                match g {
+                    $( G::C(GC::$tag(x)) => Then::then(x, c, uncl), )*
+                    $( G::U(GU::$tag(x)) => Then::then(x, c, uncl), )*
+                }
+            }
+            fn switch<'a>(g: G<'a>) -> G<'a> {
+                match g {
+                    $( G::C(GC::$tag(x)) => G::U(GU::$tag(x.into_unclamped_guard())), )*
+                    $( G::U(GU::$tag(x)) => G::C(GC::$tag(x.into_clamped_guard())), )*
+                }
+            }
+            fn restore<'a>(g: G<'a>) -> &'a mut Cont {
+                match g {
+                    $( G::C(GC::$tag(x)) => x.restore(), )*
+                    $( G::U(GU::$tag(x)) => x.restore(), )*
+                }
+            }
+            fn drop_guard(g: G<'_>) {
+                match g {
+                    $( G::C(GC::$tag(x)) => drop(x), )*
+                    $( G::U(GU::$tag(x)) => drop(x), )*
+                }
+            }
+            fn forget_guard(g: G<'_>) {
+                match g {
+                    $( G::C(GC::$tag(x)) => core::mem::forget(x), )*
+                    $( G::U(GU::$tag(x)) => core::mem::forget(x), )*
+                }
+            }
+
+            struct Env<'e> { base: usize, len: usize, head: &'e [U], tail: &'e [U], sent: [u64; 4], fixed: A }
+            impl Env<'_> {
+                fn sent_ok(&self) -> bool {
+                    let mut b = [0u64; 4];
+                    for s in self.head.iter().chain(self.tail.iter()) {
+                        cast::into_array_ref(s).put(&mut b[..A::N]);
+                        if b[..A::N] != self.sent[..A::N] { return false; }
+                    }
+                    self.head.len() == 1 && self.tail.len() == 1
+                }
+            }
+            fn observe_guard(g: &G<'_>, env: &Env, sink: &mut Sink) {
+                let v = view(g);
+                let (tag, flav) = typestate(g);
+                sink.push(tag, flav, v, v.as_ptr() as usize == env.base, v.len() == env.len, env.sent_ok());
+            }
+            fn observe_owned(mid: &Cont, env: &Env, sink: &mut Sink) {
+                let v = View::arrays(mid);
+                sink.push(0, OWNED, v, v.as_ptr() as usize == env.base, v.len() == env.len, env.sent_ok());
+            }
+            /// Runs guard operations until the guard is gone; returns the remaining operations
+            /// and whether the guard ended (restore/drop/forget) or the sequence ran out.
+            fn run_guard<'a, 'o>(mut g: G<'a>, mut ops: &'o [Op], env: &Env, sink: &mut Sink) -> (&'o [Op], bool) {
+                loop {
+                    let Some((&op, rest)) = ops.split_first() else {
+                        // end of the sequence with a live guard: nothing more is observed
+                        forget_guard(g);
+                        return (ops, false);
+                    };
+                    ops = rest;
+                    match op {
+                        Op::Deref => observe_guard(&g, env, sink),
+                        Op::Mutate(i) => {
+                            mutate(&mut g, i as usize, env.fixed);
+                            observe_guard(&g, env, sink);
+                        }
+                        Op::Then(c, uncl) => {
+                            g = then(g, c, uncl);
+                            observe_guard(&g, env, sink);
+                        }
+                        Op::Switch => {
+                            g = switch(g);
+                            observe_guard(&g, env, sink);
+                        }
+                        Op::Restore => {
+                            let r: &mut Cont = restore(g);
+                            let v = View::arrays(&*r);
+                            let ok = v.as_ptr() as usize == env.base && v.len() == env.len;
+                            sink.ret_bits.clear();
+                            sink.ret_bits.resize(v.len() * A::N, 0);
+                            for (i, a) in v.iter().enumerate() {
+                                a.put(&mut sink.ret_bits[i * A::N..(i + 1) * A::N]);
+                            }
+                            sink.ret_pending = Some(ok);
+                            return (ops, true);
+                        }
+                        Op::Drop => {
+                            drop_guard(g);
+                            return (ops, true);
+                        }
+                        Op::Forget => {
+                            forget_guard(g);
+                            return (ops, true);
+                        }
+                        Op::Start(..) => {
+                            sink.err = Some("into_color_mut is not applicable while a guard is alive");
+                            forget_guard(g);
+                            return (&[], false);
+                        }
+                    }
+                }
+            }
+
+            /// Rebuild the buffer `[sentinel, init.., sentinel]`, run `ops` on the middle part.
+            pub fn exec(init: &[u64], fixed: &[u64], ops: &[Op], sink: &mut Sink) {
+                sink.clear();
+                let n = <A as Arr>::N;
+                let len = init.len() / n;
+                let mut sent = [0u64; 4];
+                sent.copy_from_slice(&SENTINEL_BITS[if core::mem::size_of::<A>() / n == 8 { 1 } else { 0 }]);
+                let sent_arr: A = Arr::get(&sent[..n]);
+                let mut buf: Vec<U> = Vec::with_capacity(len + 2);
+                buf.push(cast::from_array(sent_arr));
+                for e in init.chunks(n) {
+                    buf.push(cast::from_array(<A as Arr>::get(e)));
+                }
+                buf.push(cast::from_array(sent_arr));
+                let (head, rest) = buf.split_at_mut(1);
+                let (mid, tail) = rest.split_at_mut(len);
+                let mid: &mut Cont = mid!($kind, mid);
+                let env = Env { base: View::arrays(&*mid).as_ptr() as usize, len, head, tail, sent, fixed: Arr::get(fixed) };
+                observe_owned(&*mid, &env, sink);
+                let mut ops = ops;
+                while let Some((&op, rest)) = ops.split_first() {
+                    match op {
+                        Op::Start(t, uncl) => {
+                            let g = start(&mut *mid, t, uncl);
+                            observe_guard(&g, &env, sink);
+                            let (rest, ended) = run_guard(g, rest, &env, sink);
+                            ops = rest;
+                            if ended {
+                                // the guard is gone: read the buffer back through its own type
+                                observe_owned(&*mid, &env, sink);
+                            }
+                        }
+                        _ => {
+                            sink.err = Some("guard operation without a live guard");
+                            return;
+                        }
+                    }
+                }
+            }
+        }
+    };
+}
+
+macro_rules! owned_impl {
+    ($t:ty, [$(($ctag:ident, $c:ty)),*]) => {
+        impl VConv for Vec<$t> {
+            #[inline(never)]
+            fn vconv(self, to: u8, how: u8, calls: &mut usize) -> V {
+                let mut k = 0u8;
+                $(
+                    if to == k {
+                        return V::$ctag(match how {
+                            0 => <Vec<$c> as FromColor<Vec<$t>>>::from_color(self),
+                            1 => <Vec<$c> as FromColorUnclamped<Vec<$t>>>::from_color_unclamped(self),
+                            2 => IntoColor::<Vec<$c>>::into_color(self),
+                            _ => cast::map_vec_in_place(self, |x: $t| { *calls += 1; <$c as FromColorUnclamped<$t>>::from_color_unclamped(x) }),
+                        });
+                    }
+                    k += 1;
+                )*
+                let _ = k;
+                unreachable!("vconv: bad type index")
+            }
+        }
+        impl BConv for Box<[$t]> {
+            #[inline(never)]
+            fn bconv(self, to: u8, how: u8, calls: &mut usize) -> B {
+                let mut k = 0u8;
+                $(
+                    if to == k {
+                        return B::$ctag(match how {
+                            0 => <Box<[$c]> as FromColor<Box<[$t]>>>::from_color(self),
+                            1 => <Box<[$c]> as FromColorUnclamped<Box<[$t]>>>::from_color_unclamped(self),
+                            2 => IntoColor::<Box<[$c]>>::into_color(self),
+                            _ => cast::map_slice_box_in_place(self, |x: $t| { *calls += 1; <$c as FromColorUnclamped<$t>>::from_color_unclamped(x) }),
+                        });
+                    }
+                    k += 1;
+                )*
+                let _ = k;
+                unreachable!("bconv: bad type index")
+            }
+        }
+    };
+}
+
+/// Owning one-shot forms and the reference conversion table of a family. `$all` lists U first.
+macro_rules! owned {
+    ($m:ident, $arr:ty, ($utag:ident, $u:ty), $all:tt) => {
+        owned!(@go $m, $arr, ($utag, $u), $all, $all);
+    };
+    (@go $m:ident, $arr:ty, ($utag:ident, $u:ty), [$(($tag:ident, $t:ty)),*], $all:tt) => {
+        pub mod $m {
+            use super::*;
+            type A = $arr;
+            pub enum V { $( $tag(Vec<$t>), )* }
+            pub enum B { $( $tag(Box<[$t]>), )* }
+            pub trait VConv { fn vconv(self, to: u8, how: u8, calls: &mut usize) -> V; }
+            pub trait BConv { fn bconv(self, to: u8, how: u8, calls: &mut usize) -> B; }
+            $( owned_impl!($t, $all); )*
+
+            /// The ordinary out-of-place conversion of one element, on bit patterns.
+            fn conv_one<X, Y, const UNCL: bool>(inp: &[u64], out: &mut [u64])
+            where
+                X: ArrayCast<Array = A>,
+                Y: ArrayCast<Array = A> + FromColor<X> + FromColorUnclamped<X>,
+            {
+                let x: X = cast::from_array(<A as Arr>::get(inp));
+                let y: Y = if UNCL { Y::from_color_unclamped(x) } else { Y::from_color(x) };
+                cast::into_array(y).put(out);
+            }
+            fn row<X>() -> Vec<[ConvFn; 2]>
+            where
+                X: ArrayCast<Array = A>,
+                $( $t: FromColor<X> + FromColorUnclamped<X>, )*
+            {
+                vec![ $( [conv_one::<X, $t, false> as ConvFn, conv_one::<X, $t, true> as ConvFn], )* ]
+            }
+            /// conv[from][to][unclamped]
+            pub fn conv_table() -> Vec<Vec<[ConvFn; 2]>> {
+                vec![ $( row::<$t>(), )* ]
+            }
+            pub fn type_names() -> Vec<&'static str> {
+                vec![ $( stringify!($tag), )* ]
+            }
+
+            fn vobs(v: &V, calls: usize, sink: &mut OSink) {
+                let mut k = 0u8;
+                $(
+                    if let V::$tag(x) = v {
+                        sink.push(k, x.as_ptr() as usize, x.len(), x.capacity(), calls, cast::into_array_slice(&x[..]));
+                        return;
+                    }
+                    k += 1;
+                )*
+                let _ = k;
+            }
+            fn bobs(v: &B, calls: usize, sink: &mut OSink) {
+                let mut k = 0u8;
+                $(
+                    if let B::$tag(x) = v {
+                        sink.push(k, x.as_ptr() as usize, x.len(), x.len(), calls, cast::into_array_slice(&x[..]));
+                        return;
+                    }
+                    k += 1;
+                )*
+                let _ = k;
+            }
+            fn build(init: &[u64], extra: usize) -> Vec<$u> {
+                let n = <A as Arr>::N;
+                let len = init.len() / n;
+                let mut v: Vec<$u> = Vec::with_capacity(len + extra);
+                for e in init.chunks(n) {
+                    v.push(cast::from_array(<A as Arr>::get(e)));
+                }
+                v
+            }
+            pub fn exec_vec(init: &[u64], extra: usize, ops: &[(u8, u8)], sink: &mut OSink) {
+                sink.clear();
+                let mut v = V::$utag(build(init, extra));
+                vobs(&v, 0, sink);
+                for &(to, how) in ops {
+                    let mut calls = 0usize;
+                    v = match v { $( V::$tag(x) => x.vconv(to, how, &mut calls), )* };
+                    vobs(&v, calls, sink);
+                }
+            }
+            pub fn exec_box(init: &[u64], _extra: usize, ops: &[(u8, u8)], sink: &mut OSink) {
+                sink.clear();
+                let mut v = B::$utag(build(init, 0).into_boxed_slice());
+                bobs(&v, 0, sink);
+                for &(to, how) in ops {
+                    let mut calls = 0usize;
+                    v = match v { $( B::$tag(x) => x.bconv(to, how, &mut calls), )* };
+                    bobs(&v, calls, sink);
+                }
+            }
+        }
+    };
+}
+
+// sentinel elements around the converted part of the buffer; [f32 bits, f64 bits]
+static SENTINEL_BITS: [[u64; 4]; 2] = [
+    [0x4640_e400, 0xc5d4_2800, 0x3c80_0000, 0x4228_0000], // 12345.0, -6789.0, 0.015625, 42.0 (f32)
+    [0x40c8_1c80_0000_0000, 0xc0ba_8500_0000_0000, 0x3f90_0000_0000_0000, 0x4045_0000_0000_0000],
+];
+
+// ----- the five families (tags must not shadow type names) -----
+type Srgba32 = Alpha<Srgb<f32>, f32>;
+
+family!(srgb32_slice, slice, [f32; 3], Srgb<f32>, [(NHsl, Hsl<S, f32>), (NHsv, Hsv<S, f32>), (NLab, Lab<D65, f32>), (NOklab, Oklab<f32>), (NXyz, Xyz<D65, f32>)]);
+family!(srgb32_single, single, [f32; 3], Srgb<f32>, [(NHsl, Hsl<S, f32>), (NHsv, Hsv<S, f32>), (NLab, Lab<D65, f32>), (NOklab, Oklab<f32>), (NXyz, Xyz<D65, f32>)]);
+owned!(srgb32_owned, [f32; 3], (NSrgb, Srgb<f32>), [(NSrgb, Srgb<f32>), (NHsl, Hsl<S, f32>), (NHsv, Hsv<S, f32>), (NLab, Lab<D65, f32>), (NOklab, Oklab<f32>), (NXyz, Xyz<D65, f32>)]);
+
+family!(hsl32_slice, slice, [f32; 3], Hsl<S, f32>, [(NSrgb, Srgb<f32>), (NHwb, Hwb<S, f32>), (NLch, Lch<D65, f32>), (NXyz, Xyz<D65, f32>), (NHsv, Hsv<S, f32>)]);
+family!(hsl32_single, single, [f32; 3], Hsl<S, f32>, [(NSrgb, Srgb<f32>), (NHwb, Hwb<S, f32>), (NLch, Lch<D65, f32>), (NXyz, Xyz<D65, f32>), (NHsv, Hsv<S, f32>)]);
+owned!(hsl32_owned, [f32; 3], (NHsl, Hsl<S, f32>), [(NHsl, Hsl<S, f32>), (NSrgb, Srgb<f32>), (NHwb, Hwb<S, f32>), (NLch, Lch<D65, f32>), (NXyz, Xyz<D65, f32>), (NHsv, Hsv<S, f32>)]);
+
+family!(lab32_slice, slice, [f32; 3], Lab<D65, f32>, [(NLch, Lch<D65, f32>), (NLuv, Luv<D65, f32>), (NYxy, Yxy<D65, f32>), (NSrgb, Srgb<f32>), (NOklch, Oklch<f32>)]);
+family!(lab32_single, single, [f32; 3], Lab<D65, f32>, [(NLch, Lch<D65, f32>), (NLuv, Luv<D65, f32>), (NYxy, Yxy<D65, f32>), (NSrgb, Srgb<f32>), (NOklch, Oklch<f32>)]);
+owned!(lab32_owned, [f32; 3], (NLab, Lab<D65, f32>), [(NLab, Lab<D65, f32>), (NLch, Lch<D65, f32>), (NLuv, Luv<D65, f32>), (NYxy, Yxy<D65, f32>), (NSrgb, Srgb<f32>), (NOklch, Oklch<f32>)]);
+
+family!(srgba32_slice, slice, [f32; 4], Srgba32, [(NHsla, Alpha<Hsl<S, f32>, f32>), (NHsva, Alpha<Hsv<S, f32>, f32>), (NLaba, Alpha<Lab<D65, f32>, f32>), (NOklaba, Alpha<Oklab<f32>, f32>), (NXyza, Alpha<Xyz<D65, f32>, f32>)]);
+family!(srgba32_single, single, [f32; 4], Srgba32, [(NHsla, Alpha<Hsl<S, f32>, f32>), (NHsva, Alpha<Hsv<S, f32>, f32>), (NLaba, Alpha<Lab<D65, f32>, f32>), (NOklaba, Alpha<Oklab<f32>, f32>), (NXyza, Alpha<Xyz<D65, f32>, f32>)]);
+owned!(srgba32_owned, [f32; 4], (NSrgba, Srgba32), [(NSrgba, Srgba32), (NHsla, Alpha<Hsl<S, f32>, f32>), (NHsva, Alpha<Hsv<S, f32>, f32>), (NLaba, Alpha<Lab<D65, f32>, f32>), (NOklaba, Alpha<Oklab<f32>, f32>), (NXyza, Alpha<Xyz<D65, f32>, f32>)]);
+
+family!(srgb64_slice, slice, [f64; 3], Srgb<f64>, [(NHsl, Hsl<S, f64>), (NLab, Lab<D65, f64>), (NOklch, Oklch<f64>), (NXyz, Xyz<D65, f64>), (NHwb, Hwb<S, f64>)]);
+family!(srgb64_single, single, [f64; 3], Srgb<f64>, [(NHsl, Hsl<S, f64>), (NLab, Lab<D65, f64>), (NOklch, Oklch<f64>), (NXyz, Xyz<D65, f64>), (NHwb, Hwb<S, f64>)]);
+owned!(srgb64_owned, [f64; 3], (NSrgb, Srgb<f64>), [(NSrgb, Srgb<f64>), (NHsl, Hsl<S, f64>), (NLab, Lab<D65, f64>), (NOklch, Oklch<f64>), (NXyz, Xyz<D65, f64>), (NHwb, Hwb<S, f64>)]);
+
+// ---------------------------------------------------------------------------------------
+// untyped description of a family
+
+struct Fam {
+    /// name of U, e.g. "Srgb<f32>"
+    name: &'static str,
+    /// "slice" | "single"
+    kind: &'static str,
+    /// type names, index 0 = U (tags without the leading N)
+    types: Vec<&'static str>,
+    ncomp: usize,
+    f64bits: bool,
+    conv: Vec<Vec<[ConvFn; 2]>>,
+    /// the 4-colour set (in-range, boundary, out-of-gamut, grey) as bits
+    colours: Vec<Vec<u64>>,
+    /// the colour written by `Mutate`, in whatever type the guard currently has
+    fixed: Vec<u64>,
+    exec: ExecFn,
+    exec_vec: OExecFn,
+    exec_box: OExecFn,
+}
+impl Fam {
+    fn nt(&self) -> u8 {
+        (self.types.len() - 1) as u8
+    }
+}
+
+fn mkbits(f64bits: bool, vals: &[f64]) -> Vec<u64> {
+    // black_box: the colours are runtime data for the optimiser (no compile-time folding of
+    // libm calls on either side of the comparison)
+    vals.iter().map(|&x| std::hint::black_box(if f64bits { x.to_bits() } else { (x as f32).to_bits() as u64 })).collect()
+}
+
+fn families() -> Vec<Fam> {
+    let strip = |v: Vec<&'static str>| -> Vec<&'static str> { v.into_iter().map(|s| s.strip_prefix('N').unwrap_or(s)).collect() };
+    let fixed4 = [0.3, 1.25, -0.125, 0.5];
+    let rgb = [[0.8, 0.3, 0.1], [1.0, 0.0, 1.0], [1.2, -0.1, 0.5], [0.5, 0.5, 0.5]];
+    let hsl = [[35.0, 0.6, 0.4], [360.0, 1.0, 0.5], [-30.0, 1.3, 0.5], [0.0, 0.0, 0.5]];
+    let lab = [[50.0, 20.0, -30.0], [100.0, -128.0, 127.0], [120.0, 150.0, -150.0], [50.0, 0.0, 0.0]];
+    let rgba = [[0.8, 0.3, 0.1, 0.5], [1.0, 0.0, 1.0, 1.0], [1.2, -0.1, 0.5, 1.5], [0.5, 0.5, 0.5, 0.0]];
+    let mut out = vec![];
+    macro_rules! fam {
+        ($name:literal, $f64:expr, $nc:expr, $cols:expr, $sl:ident, $si:ident, $ow:ident) => {
+            for (kind, exec) in [("slice", $sl::exec as ExecFn), ("single", $si::exec as ExecFn)] {
+                out.push(Fam {
+                    name: $name,
+                    kind,
+                    types: strip($ow::type_names()),
+                    ncomp: $nc,
+                    f64bits: $f64,
+                    conv: $ow::conv_table(),
+                    colours: $cols.iter().map(|c| mkbits($f64, &c[..])).collect(),
+                    fixed: mkbits($f64, &fixed4[..$nc]),
+                    exec,
+                    exec_vec: $ow::exec_vec as OExecFn,
+                    exec_box: $ow::exec_box as OExecFn,
+                });
+            }
+        };
+    }
+    fam!("Srgb<f32>", false, 3, rgb, srgb32_slice, srgb32_single, srgb32_owned);
+    fam!("Hsl<f32>", false, 3, hsl, hsl32_slice, hsl32_single, hsl32_owned);
+    fam!("Lab<f32>", false, 3, lab, lab32_slice, lab32_single, lab32_owned);
+    fam!("Srgba<f32>", false, 4, rgba, srgba32_slice, srgba32_single, srgba32_owned);
+    fam!("Srgb<f64>", true, 3, rgb, srgb64_slice, srgb64_single, srgb64_owned);
+    out
+}
+
+// ---------------------------------------------------------------------------------------
+// reference model
+
+fn map_all(f: &Fam, s: &Key, from: u8, to: u8, uncl: bool) -> [u64; MAXB] {
+    let nc = f.ncomp;
+    let cf = f.conv[from as usize][to as usize][uncl as usize];
+    let mut out = [0u64; MAXB];
+    let n = s.n as usize;
+    let mut i = 0;
+    while i < n {
+        cf(&s.bits[i..i + nc], &mut out[i..i + nc]);
+        i += nc;
+    }
+    out
+}
+
+/// The reference model: what the property says the state is after `op`.
+fn model_apply(f: &Fam, s: &Key, op: Op) -> Key {
+    let mut r = *s;
+    match op {
+        Op::Start(t, uncl) => {
+            r.bits = map_all(f, s, 0, t, uncl);
+            r.tag = t;
+            r.flav = if uncl { UNCLAMPED } else { CLAMPED };
+        }
+        Op::Deref => {}
+        Op::Mutate(i) => {
+            let nc = f.ncomp;
+            r.bits[i as usize * nc..(i as usize + 1) * nc].copy_from_slice(&f.fixed);
+        }
+        Op::Then(c, uncl) => {
+            r.bits = map_all(f, s, s.tag, c, uncl);
+            r.tag = c;
+            r.flav = if uncl { UNCLAMPED } else { CLAMPED };
+        }
+        Op::Switch => r.flav = if s.flav == CLAMPED { UNCLAMPED } else { CLAMPED },
+        Op::Restore | Op::Drop => {
+            // one step back to U, with the guard's flavour
+            r.bits = map_all(f, s, s.tag, 0, s.flav == UNCLAMPED);
+            r.tag = 0;
+            r.flav = OWNED;
+        }
+        Op::Forget => {
+            // nothing is converted: the [U] buffer keeps the bits of the converted colours
+            r.tag = 0;
+            r.flav = OWNED;
+        }
+    }
+    r
+}
+
+fn ops_for(flav: u8, len: usize, nt: u8, out: &mut Vec<Op>) {
+    out.clear();
+    if flav == OWNED {
+        for uncl in [false, true] {
+            for t in 1..=nt {
+                out.push(Op::Start(t, uncl));
+            }
+        }
+    } else {
+        out.push(Op::Deref);
+        for i in 0..len {
+            out.push(Op::Mutate(i as u8));
+        }
+        for uncl in [false, true] {
+            for c in 1..=nt {
+                out.push(Op::Then(c, uncl));
+            }
+        }
+        out.push(Op::Switch);
+        out.push(Op::Restore);
+        out.push(Op::Drop);
+        out.push(Op::Forget);
+    }
+}
+
+fn flav_name(f: u8) -> &'static str {
+    match f {
+        OWNED => "owned",
+        CLAMPED => "clamped",
+        _ => "unclamped",
+    }
+}
+
+/// Name of the operation as a call site (for signatures): guard flavour + method.
+fn op_site(op: Op, flav_before: u8) -> String {
+    let fl = flav_name(flav_before);
+    match op {
+        Op::Start(_, false) => "into_color_mut".into(),
+        Op::Start(_, true) => "into_color_unclamped_mut".into(),
+        Op::Deref => format!("{fl}.deref"),
+        Op::Mutate(_) => format!("{fl}.deref_mut"),
+        Op::Then(_, false) => format!("{fl}.then_into_color_mut"),
+        Op::Then(_, true) => format!("{fl}.then_into_color_unclamped_mut"),
+        Op::Switch => {
+            if flav_before == CLAMPED {
+                "clamped.into_unclamped_guard".into()
+            } else {
+                "unclamped.into_clamped_guard".into()
+            }
+        }
+        Op::Restore => format!("{fl}.restore"),
+        Op::Drop => format!("{fl}.drop"),
+        Op::Forget => format!("{fl}.forget"),
+    }
+}
+
+fn render_ops(f: &Fam, ops: &[Op]) -> Vec<String> {
+    let mut flav = OWNED;
+    let mut out = vec![];
+    for &op in ops {
+        out.push(match op {
+            Op::Start(t, false) => format!("into_color_mut:{}", f.types[t as usize]),
+            Op::Start(t, true) => format!("into_color_unclamped_mut:{}", f.types[t as usize]),
+            Op::Deref => "deref".into(),
+            Op::Mutate(i) => format!("mutate:{i}"),
+            Op::Then(c, false) => format!("then_into_color_mut:{}", f.types[c as usize]),
+            Op::Then(c, true) => format!("then_into_color_unclamped_mut:{}", f.types[c as usize]),
+            Op::Switch => (if flav == CLAMPED { "into_unclamped_guard" } else { "into_clamped_guard" }).into(),
+            Op::Restore => "restore".into(),
+            Op::Drop => "drop".into(),
+            Op::Forget => "forget".into(),
+        });
+        flav = match op {
+            Op::Start(_, u) | Op::Then(_, u) => {
+                if u {
+                    UNCLAMPED
+                } else {
+                    CLAMPED
+                }
+            }
+            Op::Switch => {
+                if flav == CLAMPED {
+                    UNCLAMPED
+                } else {
+                    CLAMPED
+                }
+            }
+            Op::Restore | Op::Drop | Op::Forget => OWNED,
+            _ => flav,
+        };
+    }
+    out
+}
+
+fn parse_op(f: &Fam, s: &str) -> Option<Op> {
+    let (name, arg) = match s.split_once(':') {
+        Some((a, b)) => (a, Some(b)),
+        None => (s, None),
+    };
+    let ty = |a: Option<&str>| -> Option<u8> { f.types.iter().position(|t| Some(*t) == a).map(|i| i as u8) };
+    Some(match name {
+        "into_color_mut" => Op::Start(ty(arg)?, false),
+        "into_color_unclamped_mut" => Op::Start(ty(arg)?, true),
+        "deref" => Op::Deref,
+        "mutate" => Op::Mutate(arg?.parse().ok()?),
+        "then_into_color_mut" => Op::Then(ty(arg)?, false),
+        "then_into_color_unclamped_mut" => Op::Then(ty(arg)?, true),
+        "into_unclamped_guard" | "into_clamped_guard" => Op::Switch,
+        "restore" => Op::Restore,
+        "drop" => Op::Drop,
+        "forget" => Op::Forget,
+        _ => return None,
+    })
+}
+
+fn hexbits(f: &Fam, b: &[u64]) -> Vec<String> {
+    b.iter().map(|&x| if f.f64bits { format!("0x{x:016x}") } else { format!("0x{x:08x}") }).collect()
+}
+fn floats(f: &Fam, b: &[u64]) -> Vec<String> {
+    b.iter().map(|&x| if f.f64bits { format!("{:?}", f64::from_bits(x)) } else { format!("{:?}", f32::from_bits(x as u32)) }).collect()
+}
+fn state_json(f: &Fam, tag: u8, flav: u8, bits: &[u64]) -> Value {
+    json!({"type": f.types[tag as usize], "guard": flav_name(flav), "bits": hexbits(f, bits), "values": floats(f, bits)})
+}
+
+fn init_key(f: &Fam, buf: &[u8]) -> Key {
+    let mut k = Key { tag: 0, flav: OWNED, n: (buf.len() * f.ncomp) as u8, bits: [0; MAXB] };
+    for (i, &ci) in buf.iter().enumerate() {
+        k.bits[i * f.ncomp..(i + 1) * f.ncomp].copy_from_slice(&f.colours[ci as usize]);
+    }
+    k
+}
+
+/// `-0.0` and `+0.0` are the same value: `f32::max`/`min` (used by palette's `clamp_min` /
+/// `clamp_max`, e.g. `Hwb::clamp` on a whiteness of -0.0) are documented as not deterministic
+/// regarding signed zeros, so two call sites of the very same conversion may legitimately
+/// disagree on the sign of a zero (seen: in place -0.0, out of place +0.0 at depth 6).
+fn same_values(f64bits: bool, a: &[u64], b: &[u64], zero_sign: &mut u64) -> bool {
+    if a == b {
+        return true;
+    }
+    let neg0: u64 = if f64bits { 1 << 63 } else { 1 << 31 };
+    let ok = a.len() == b.len() && a.iter().zip(b).all(|(&x, &y)| x == y || ((x == 0 || x == neg0) && (y == 0 || y == neg0)));
+    if ok {
+        *zero_sign += 1;
+    }
+    ok
+}
+
+/// Compare one observed step with the model's prediction; `None` = agrees.
+fn diff(step: &Step, sbits: &[u64], m: &Key, f64bits: bool, zero_sign: &mut u64) -> Option<&'static str> {
+    if step.tag != m.tag || step.flav != m.flav {
+        Some("typestate")
+    } else if !step.addr_ok {
+        Some("address")
+    } else if !step.len_ok {
+        Some("length")
+    } else if !step.sent_ok {
+        Some("neighbours")
+    } else if !step.ret_ok {
+        Some("restore-return")
+    } else if !same_values(f64bits, sbits, m.bits(), zero_sign) {
+        Some("values")
+    } else {
+        None
+    }
+}
+
+/// The observed state after step k as a canonical state.
+fn observed_key(sink: &Sink, k: usize) -> Key {
+    let st = &sink.steps[k];
+    let mut key = Key { tag: st.tag, flav: st.flav, n: st.n as u8, bits: [0; MAXB] };
+    key.bits[..st.n].copy_from_slice(sink.step_bits(k));
+    key
+}
+
+fn guard_violation(c: &mut Collector, f: &Fam, buf: &[u8], ops: &[Op], k: usize, what: &str, flav_before: u8, step: Option<(&Step, &[u64])>, m: Option<&Key>, mode: &str, extra: Option<String>) {
+    let site = if k == 0 { "initial-buffer".to_string() } else { op_site(ops[k - 1], flav_before) };
+    let sig = format!("C13/guard-{}/{}/{}/{}", f.kind, f.name, site, what);
+    c.violation(&sig, 1.0, || {
+        json!({
+            "sub": "guard", "family": f.name, "kind": f.kind, "mode": mode,
+            "buffer": buf, "ops": render_ops(f, ops), "step": k, "what": what,
+            "observed": match step { Some((s, b)) => json!({"state": state_json(f, s.tag, s.flav, b), "same_address": s.addr_ok, "same_length": s.len_ok, "neighbours_untouched": s.sent_ok, "restore_returned_same_buffer": s.ret_ok}), None => json!(extra) },
+            "expected": m.map(|m| state_json(f, m.tag, m.flav, m.bits())),
+        })
+    });
+}
+
+/// Execute `ops` on the real code and compare EVERY step: the state observed after operation k
+/// must be what the reference model predicts from the state observed after operation k-1.
+/// Returns the last observed state, or Err(step) after recording a violation.
+fn check_all_steps(c: &mut Collector, f: &Fam, buf: &[u8], init: &Key, ops: &[Op], sink: &mut Sink, mode: &str, verbose: bool) -> Result<Key, usize> {
+    let exec = f.exec;
+    let r = pv::catch(|| exec(init.bits(), &f.fixed, ops, sink));
+    if let Err(msg) = r {
+        guard_violation(c, f, buf, ops, ops.len(), "panic", OWNED, None, None, mode, Some(format!("panic: {msg}")));
+        return Err(ops.len());
+    }
+    if let Some(e) = sink.err {
+        eprintln!("MACHINERY-FAILURE: C13 executor: {e} (ops {:?})", render_ops(f, ops));
+        std::process::exit(3);
+    }
+    if sink.steps.len() != ops.len() + 1 {
+        eprintln!("MACHINERY-FAILURE: C13 executor produced {} observations for {} ops ({:?})", sink.steps.len(), ops.len(), render_ops(f, ops));
+        std::process::exit(3);
+    }
+    let mut prev = *init;
+    let mut zs = 0u64;
+    for k in 0..=ops.len() {
+        let expected = if k == 0 { *init } else { model_apply(f, &prev, ops[k - 1]) };
+        let st = sink.steps[k];
+        let sb = sink.step_bits(k);
+        if verbose {
+            println!("  step {k}: {}", if k == 0 { "initial".to_string() } else { render_ops(f, ops)[k - 1].clone() });
+            println!("    observed: {} addr_ok={} len_ok={} neighbours_ok={} restore_ref_ok={}", state_json(f, st.tag, st.flav, sb), st.addr_ok, st.len_ok, st.sent_ok, st.ret_ok);
+            println!("    expected: {}", state_json(f, expected.tag, expected.flav, expected.bits()));
+        }
+        if let Some(what) = diff(&st, sb, &expected, f.f64bits, &mut zs) {
+            guard_violation(c, f, buf, ops, k, what, prev.flav, Some((&st, sb)), Some(&expected), mode, None);
+            return Err(k);
+        }
+        prev = observed_key(sink, k);
+    }
+    sink.zero_sign += zs;
+    Ok(prev)
+}
+
+// ---------------------------------------------------------------------------------------
+// fast hashing of canonical states
+
+#[derive(Default, Clone, Copy)]
+struct Fx(u64);
+impl Hasher for Fx {
+    fn finish(&self) -> u64 {
+        self.0
+    }
+    fn write(&mut self, bytes: &[u8]) {
+        for ch in bytes.chunks(8) {
+            let mut b = [0u8; 8];
+            b[..ch.len()].copy_from_slice(ch);
+            self.write_u64(u64::from_le_bytes(b));
+        }
+    }
+    fn write_u8(&mut self, i: u8) {
+        self.write_u64(i as u64)
+    }
+    fn write_u64(&mut self, i: u64) {
+        self.0 = (self.0.rotate_left(5) ^ i).wrapping_mul(0x517c_c1b7_2722_0a95);
+    }
+    fn write_usize(&mut self, i: usize) {
+        self.write_u64(i as u64)
+    }
+}
+type FxBuild = BuildHasherDefault<Fx>;
+
+fn key_hash(k: &Key) -> u64 {
+    let mut h = 0xcbf2_9ce4_8422_2325u64 ^ ((k.tag as u64) << 8 | k.flav as u64 | (k.n as u64) << 16);
+    for &b in k.bits() {
+        h = pv::splitmix(h ^ b);
+    }
+    pv::splitmix(h)
+}
+
+// ---------------------------------------------------------------------------------------
+// the explorer
+
+struct TaskOut {
+    states: u64,
+    edges: u64,
+    real_ops: u64,
+    nontrivial: u64,
+    max_depth_new_state: usize,
+    states_by_depth: Vec<u64>,
+    zero_sign: u64,
+}
+
+/// Merged breadth-first exploration of all operation sequences up to `depth` from one buffer.
+/// A node is the canonical state OBSERVED on the real code (typestate, buffer bits); an edge
+/// (node, op) is executed by rebuilding the buffer and replaying path(node) + op; the replay must
+/// pass through the node's state again, and the state after `op` must be what the reference
+/// model predicts from the node's state. Returns the canonical states first reached at depth
+/// <= `keep_depth` (for the differential with the unmerged run).
+fn explore_merged(c: &mut Collector, ctx: &Ctx, f: &Fam, buf: &[u8], depth: usize, keep_depth: usize, sub: &str) -> (TaskOut, HashMap<Key, u8, FxBuild>) {
+    let init = init_key(f, buf);
+    let len = buf.len();
+    let mut visited: HashMap<Key, u8, FxBuild> = HashMap::default();
+    visited.insert(init, 0);
+    let mut level: Vec<(Key, Path)> = vec![(init, Path::new())];
+    let mut last_hashes: Vec<u64> = vec![];
+    let mut sink = Sink::default();
+    let mut ops = vec![];
+    let mut out = TaskOut { states: 0, edges: 0, real_ops: 0, nontrivial: 0, max_depth_new_state: 0, states_by_depth: vec![0; depth + 1], zero_sign: 0 };
+    out.states_by_depth[0] = 1;
+    let mut exact = 0u64;
+    for d in 0..depth {
+        let mut next: Vec<(Key, Path)> = vec![];
+        for (node, path) in &level {
+            ops_for(node.flav, len, f.nt(), &mut ops);
+            for &op in &ops {
+                let m = model_apply(f, node, op);
+                let p2 = path.push(op);
+                out.edges += 1;
+                out.real_ops += p2.n as u64;
+                let exec = f.exec;
+                let r = pv::catch(|| exec(init.bits(), &f.fixed, p2.ops(), &mut sink));
+                if let Err(msg) = r {
+                    guard_violation(c, f, buf, p2.ops(), p2.n as usize, "panic", node.flav, None, Some(&m), "merged", Some(format!("panic: {msg}")));
+                    continue;
+                }
+                if sink.err.is_some() || sink.steps.len() != p2.n as usize + 1 {
+                    eprintln!("MACHINERY-FAILURE: C13 executor: {:?} / {} observations for {:?}", sink.err, sink.steps.len(), render_ops(f, p2.ops()));
+                    std::process::exit(3);
+                }
+                // the replayed prefix must reproduce the parent state exactly (bit for bit): it
+                // was validated step by step when it was explored
+                let kp = d;
+                if observed_key(&sink, kp) != *node {
+                    let sp = sink.steps[kp];
+                    let sig = format!("C13/guard-{}/{}/replay-not-reproducible", f.kind, f.name);
+                    c.violation(&sig, 1.0, || json!({"sub": "guard", "family": f.name, "kind": f.kind, "mode": "merged", "buffer": buf, "ops": render_ops(f, p2.ops()), "step": kp, "what": "replay-not-reproducible", "observed": state_json(f, sp.tag, sp.flav, sink.step_bits(kp)), "expected": state_json(f, node.tag, node.flav, node.bits())}));
+                    continue;
+                }
+                let k = d + 1;
+                let st = sink.steps[k];
+                let sb = sink.step_bits(k);
+                if let Some(what) = diff(&st, sb, &m, f.f64bits, &mut out.zero_sign) {
+                    guard_violation(c, f, buf, p2.ops(), k, what, node.flav, Some((&st, sb)), Some(&m), "merged", None);
+                    continue; // do not explore beyond a violation (no cascades)
+                }
+                exact += 1;
+                let o = observed_key(&sink, k);
+                if d + 1 < depth {
+                    if !visited.contains_key(&o) {
+                        visited.insert(o, (d + 1) as u8);
+                        next.push((o, p2));
+                        new_state(c, ctx, f, buf, &init, &o, &p2, d + 1, &mut out);
+                    }
+                } else if !visited.contains_key(&o) {
+                    let h = key_hash(&o);
+                    last_hashes.push(h);
+                    if h % 4096 == 0 {
+                        c.sample(h ^ ctx.seed, || json!({"sub": sub, "family": f.name, "kind": f.kind, "buffer": buf, "ops": render_ops(f, p2.ops()), "state": state_json(f, o.tag, o.flav, o.bits())}));
+                    }
+                }
+            }
+        }
+        level = next;
+    }
+    let _ = exact;
+    // states first seen at the last level (64-bit hashes; only counted, never expanded)
+    last_hashes.sort_unstable();
+    last_hashes.dedup();
+    for h in &last_hashes {
+        c.outcome(*h);
+    }
+    out.states_by_depth[depth] = last_hashes.len() as u64;
+    if !last_hashes.is_empty() {
+        out.max_depth_new_state = depth;
+        // non-trivial by the stated rule: anything at depth >= 1 of a non-empty buffer
+        if len > 0 {
+            out.nontrivial += last_hashes.len() as u64;
+        }
+    }
+    out.states = visited.len() as u64 + last_hashes.len() as u64;
+    visited.retain(|_, d| (*d as usize) <= keep_depth);
+    (out, visited)
+}
+
+fn new_state(c: &mut Collector, ctx: &Ctx, f: &Fam, buf: &[u8], init: &Key, m: &Key, p: &Path, d: usize, out: &mut TaskOut) {
+    let h = key_hash(m);
+    c.outcome(h);
+    out.states_by_depth[d] += 1;
+    out.max_depth_new_state = out.max_depth_new_state.max(d);
+    if m.n > 0 && (m.flav != OWNED || m.bits != init.bits) {
+        out.nontrivial += 1;
+    }
+    if h % 1024 == 0 {
+        c.sample(h ^ ctx.seed, || json!({"sub": format!("guard-{}/merged", f.kind), "family": f.name, "kind": f.kind, "buffer": buf, "ops": render_ops(f, p.ops()), "state": state_json(f, m.tag, m.flav, m.bits())}));
+    }
+}
+
+struct UOut {
+    sequences: u64,
+    real_ops: u64,
+    steps_compared: u64,
+    zero_sign: u64,
+}
+
+/// Unmerged: every sequence up to `depth`, no dedup; every sequence is executed from scratch and
+/// EVERY one of its steps is compared with the model (`check_all_steps`).
+fn explore_unmerged(c: &mut Collector, f: &Fam, buf: &[u8], depth: usize, set: &mut HashSet<Key, FxBuild>) -> UOut {
+    let init = init_key(f, buf);
+    let mut out = UOut { sequences: 0, real_ops: 0, steps_compared: 0, zero_sign: 0 };
+    let mut path: Vec<Op> = vec![];
+    let mut sink = Sink::default();
+    set.insert(init);
+    fn rec(c: &mut Collector, f: &Fam, buf: &[u8], init: &Key, last: Key, depth: usize, path: &mut Vec<Op>, sink: &mut Sink, set: &mut HashSet<Key, FxBuild>, out: &mut UOut) {
+        if path.len() == depth {
+            return;
+        }
+        let mut ops = vec![];
+        ops_for(last.flav, buf.len(), f.nt(), &mut ops);
+        for op in ops {
+            path.push(op);
+            out.sequences += 1;
+            out.real_ops += path.len() as u64;
+            out.steps_compared += path.len() as u64 + 1;
+            if let Ok(o) = check_all_steps(c, f, buf, init, path, sink, "unmerged", false) {
+                set.insert(o);
+                rec(c, f, buf, init, o, depth, path, sink, set, out);
+            }
+            path.pop();
+        }
+    }
+    rec(c, f, buf, &init, init, depth, &mut path, &mut sink, set, &mut out);
+    out.zero_sign = sink.zero_sign;
+    out
+}
+
+/// All buffers of length 0..=maxlen over the 4-colour set, shortest first.
+fn all_buffers(maxlen: usize) -> Vec<Vec<u8>> {
+    let mut out = vec![vec![]];
+    let mut prev: Vec<Vec<u8>> = vec![vec![]];
+    for _ in 0..maxlen {
+        let mut next = vec![];
+        for p in &prev {
+            for ci in 0..4u8 {
+                let mut q = p.clone();
+                q.push(ci);
+                next.push(q);
+            }
+        }
+        out.extend(next.iter().cloned());
+        prev = next;
+    }
+    out
+}
+
+fn guard_checks(ctx: &Ctx, total: &mut Collector, fams: &[Fam], depth: usize, udepth: usize, maxlen: usize) {
+    // tasks: (family, buffer)
+    let mut tasks: Vec<(usize, Vec<u8>)> = vec![];
+    for (fi, f) in fams.iter().enumerate() {
+        let sub = format!("guard-{}", f.kind);
+        if !ctx.wants(&sub) {
+            continue;
+        }
+        if f.kind == "slice" {
+            for b in all_buffers(maxlen) {
+                tasks.push((fi, b));
+            }
+        } else {
+            for ci in 0..4u8 {
+                tasks.push((fi, vec![ci]));
+            }
+        }
+    }
+    // big tasks first (better balance); results are merged in task order, so the outcome does
+    // not depend on scheduling
+    tasks.sort_by_key(|(fi, b)| (std::cmp::Reverse(b.len()), *fi));
+    let outs = pv::par::map_chunks(tasks.len(), |ti| {
+        let (fi, buf) = &tasks[ti];
+        let f = &fams[*fi];
+        let mut c = Collector::new();
+        let subm = format!("guard-{}/merged", f.kind);
+        let subu = format!("guard-{}/unmerged", f.kind);
+        let (mo, mset) = explore_merged(&mut c, ctx, f, buf, depth, udepth, &subm);
+        c.add(&subm, mo.states, mo.edges, mo.edges, mo.nontrivial);
+        let mut uset: HashSet<Key, FxBuild> = HashSet::default();
+        let uo = explore_unmerged(&mut c, f, buf, udepth, &mut uset);
+        c.add(&subu, uset.len() as u64, uo.real_ops, uo.steps_compared, uset.iter().filter(|k| k.n > 0 && k.flav != OWNED).count() as u64);
+        // differential: same set of reachable canonical states up to the unmerged depth
+        // (only meaningful when neither run was cut short by a violation)
+        if c.viol.is_empty() {
+            let same = uset.len() == mset.len() && uset.iter().all(|k| mset.contains_key(k));
+            if !same {
+                eprintln!("MACHINERY-FAILURE: C13 merged and unmerged exploration disagree on the reachable states ({} vs {}) for {} {} buffer {:?}", mset.len(), uset.len(), f.name, f.kind, buf);
+                std::process::exit(3);
+            }
+        }
+        (c, mo, uo, *fi, buf.len())
+    });
+    let mut seq_merged = 0u64;
+    let mut real_ops_merged = 0u64;
+    let mut seq_unmerged = 0u64;
+    let mut by_depth = vec![0u64; depth + 1];
+    let mut maxd = 0usize;
+    let mut zero_sign = 0u64;
+    let mut per_family: std::collections::BTreeMap<String, [u64; 2]> = Default::default();
+    for (c, mo, uo, fi, _len) in outs {
+        total.merge(c);
+        seq_merged += mo.edges;
+        real_ops_merged += mo.real_ops;
+        seq_unmerged += uo.sequences;
+        zero_sign += mo.zero_sign + uo.zero_sign;
+        maxd = maxd.max(mo.max_depth_new_state);
+        for (i, n) in mo.states_by_depth.iter().enumerate() {
+            by_depth[i] += n;
+        }
+        let e = per_family.entry(format!("{}/{}", fams[fi].name, fams[fi].kind)).or_insert([0, 0]);
+        e[0] += mo.states;
+        e[1] += mo.edges;
+    }
+    let nt = fams[0].nt();
+    for kind in ["slice", "single"] {
+        let subm = format!("guard-{kind}/merged");
+        let subu = format!("guard-{kind}/unmerged");
+        if !ctx.wants(&format!("guard-{kind}")) {
+            continue;
+        }
+        let space = if kind == "slice" { format!("every buffer of length 0..={maxlen} over the 4-colour set (1+4+16+64)") } else { "every single colour of the 4-colour set (through `FromColorMut for C` on `&mut C`)".to_string() };
+        total.exhaustive(&subm, true, &format!("{space} x 5 original types x {nt} target types each; every sequence of guard operations (into_color_mut, into_color_unclamped_mut, deref, mutate(i), then_into_color_mut<C>, then_into_color_unclamped_mut<C>, into_unclamped_guard/into_clamped_guard, restore, drop, forget) up to depth {depth}, canonical states merged; each explored edge = rebuild + replay of the whole sequence on the real guards"));
+        total.exhaustive(&subu, true, &format!("{space} x 5 original types: every sequence up to depth {udepth} without merging, every step compared; reachable state set equal to the merged run's"));
+    }
+    total.note("guard/sequences_replayed_merged", json!(seq_merged));
+    total.note("guard/real_guard_operations_executed_incl_replayed_prefixes_merged", json!(real_ops_merged));
+    total.note("guard/sequences_unmerged", json!(seq_unmerged));
+    total.note("guard/depth", json!({"merged": depth, "unmerged": udepth, "deepest_level_with_new_states": maxd}));
+    total.note("guard/new_canonical_states_by_depth", json!(by_depth));
+    total.note("guard/states_and_edges_per_family", json!(per_family));
+    total.note("guard/steps_equal_to_the_model_only_up_to_the_sign_of_a_zero", json!(zero_sign));
+    total.note("guard/families", json!(fams.iter().filter(|f| f.kind == "slice").map(|f| json!({"U": f.name, "targets": f.types[1..]})).collect::<Vec<_>>()));
+    total.note("guard/merged_vs_unmerged_reachable_sets", json!("equal for every (family, buffer)"));
+}
+
+// ---------------------------------------------------------------------------------------
+// owning one-shot forms
+
+fn owned_buffers() -> Vec<Vec<u8>> {
+    // all contents for len <= 2; the four rotations of the colour set for len 3 and 4
+    let mut out = all_buffers(2);
+    for len in 3..=4usize {
+        for r in 0..4u8 {
+            out.push((0..len as u8).map(|i| (i + r) % 4).collect());
+        }
+    }
+    out
+}
+
+fn owned_violation(c: &mut Collector, f: &Fam, cont: &str, buf: &[u8], extra: usize, ops: &[(u8, u8)], k: usize, what: &str, observed: Value, expected: Value) {
+    let site = if k == 0 { "build".to_string() } else { format!("{}::{}", cont, HOW_NAMES[ops[k - 1].1 as usize]) };
+    let sig = format!("C13/{}/{}/{}/{}", cont, f.name, site, what);
+    c.violation(&sig, 1.0, || {
+        json!({"sub": cont, "family": f.name, "buffer": buf, "extra_capacity": extra,
+               "ops": ops.iter().map(|&(t, h)| format!("{}:{}", HOW_NAMES[h as usize], f.types[t as usize])).collect::<Vec<_>>(),
+               "step": k, "what": what, "observed": observed, "expected": expected})
+    });
+}
+
+/// Execute one chain of owning conversions and compare every step. Returns false on violation.
+fn owned_run(c: &mut Collector, f: &Fam, cont: &str, buf: &[u8], extra: usize, ops: &[(u8, u8)], sink: &mut OSink, verbose: bool) -> bool {
+    let nc = f.ncomp;
+    let mut init: Vec<u64> = vec![];
+    for &ci in buf {
+        init.extend_from_slice(&f.colours[ci as usize]);
+    }
+    let exec = if cont == "vec" { f.exec_vec } else { f.exec_box };
+    if let Err(msg) = pv::catch(|| exec(&init, extra, ops, sink)) {
+        owned_violation(c, f, cont, buf, extra, ops, ops.len(), "panic", json!({"panic": msg}), json!("no panic"));
+        return false;
+    }
+    if sink.steps.len() != ops.len() + 1 {
+        eprintln!("MACHINERY-FAILURE: C13 owned executor produced {} observations for {} ops", sink.steps.len(), ops.len());
+        std::process::exit(3);
+    }
+    // model: the state after operation k is predicted from the state OBSERVED after k-1
+    let mut tag = 0u8;
+    let mut bits = init.clone();
+    let s0 = sink.steps[0];
+    let mut zs = 0u64;
+    for k in 0..=ops.len() {
+        if k > 0 {
+            let (to, how) = ops[k - 1];
+            let prev_tag = sink.steps[k - 1].tag;
+            let prev = sink.step_bits(k - 1);
+            let cf = f.conv[prev_tag as usize][to as usize][HOW_UNCL[how as usize] as usize];
+            let mut nb = vec![0u64; prev.len()];
+            for i in (0..prev.len()).step_by(nc) {
+                cf(&prev[i..i + nc], &mut nb[i..i + nc]);
+            }
+            bits = nb;
+            tag = to;
+        }
+        let st = sink.steps[k];
+        let sb = sink.step_bits(k);
+        if verbose {
+            println!("  step {k}: type={} ptr={:#x} len={} cap={} calls={} values={:?}", f.types[st.tag as usize], st.ptr, st.len, st.cap, st.calls, floats(f, sb));
+            println!("    expected: type={} ptr={:#x} len={} cap={} values={:?}", f.types[tag as usize], s0.ptr, s0.len, s0.cap, floats(f, &bits));
+        }
+        let what = if st.tag != tag {
+            Some("type")
+        } else if st.ptr != s0.ptr {
+            Some("address")
+        } else if st.len != s0.len || st.len != buf.len() {
+            Some("length")
+        } else if st.cap != s0.cap {
+            Some("capacity")
+        } else if !same_values(f.f64bits, sb, &bits, &mut zs) {
+            Some("values")
+        } else if k > 0 && ops[k - 1].1 == 3 && st.calls != buf.len() {
+            Some("closure-calls")
+        } else {
+            None
+        };
+        if let Some(what) = what {
+            owned_violation(
+                c, f, cont, buf, extra, ops, k, what,
+                json!({"type": f.types[st.tag as usize], "ptr": format!("{:#x}", st.ptr), "len": st.len, "capacity": st.cap, "closure_calls": st.calls, "bits": hexbits(f, sb), "values": floats(f, sb)}),
+                json!({"type": f.types[tag as usize], "ptr": format!("{:#x}", s0.ptr), "len": s0.len, "capacity": s0.cap, "bits": hexbits(f, &bits), "values": floats(f, &bits)}),
+            );
+            return false;
+        }
+    }
+    true
+}
+
+fn owned_checks(ctx: &Ctx, total: &mut Collector, fams: &[Fam], chain: usize) {
+    let bufs = owned_buffers();
+    let fam_idx: Vec<usize> = fams.iter().enumerate().filter(|(_, f)| f.kind == "slice").map(|(i, _)| i).collect();
+    for cont in ["vec", "box"] {
+        if !ctx.wants(cont) {
+            continue;
+        }
+        // tasks: (family, buffer, extra capacity)
+        let mut tasks = vec![];
+        for &fi in &fam_idx {
+            for b in &bufs {
+                for extra in 0..(if cont == "vec" { 4 } else { 1 }) {
+                    tasks.push((fi, b.clone(), extra));
+                }
+            }
+        }
+        let seq_total = std::sync::atomic::AtomicU64::new(0);
+        let c = pv::par::run_chunks(tasks.len(), |ti, c| {
+            let (fi, buf, extra) = &tasks[ti];
+            let f = &fams[*fi];
+            let ntypes = f.types.len() as u8;
+            let mut alphabet = vec![];
+            for how in 0..4u8 {
+                for to in 0..ntypes {
+                    alphabet.push((to, how));
+                }
+            }
+            let mut sink = OSink::default();
+            let mut seqs = 0u64;
+            let mut opsn = 0u64;
+            let mut steps = 0u64;
+            let mut shapes: HashSet<(usize, usize)> = HashSet::new();
+            let mut seen: HashSet<u64, FxBuild> = HashSet::default();
+            // every chain of length 1..=chain (odometer over the alphabet)
+            for l in 1..=chain {
+                let mut idx = vec![0usize; l];
+                'odo: loop {
+                    let ops: Vec<(u8, u8)> = idx.iter().map(|&i| alphabet[i]).collect();
+                    seqs += 1;
+                    opsn += l as u64;
+                    steps += l as u64 + 1;
+                    owned_run(c, f, cont, buf, *extra, &ops, &mut sink, false);
+                    if let Some(s0) = sink.steps.first() {
+                        shapes.insert((s0.len, s0.cap));
+                    }
+                    if let Some(last) = sink.steps.last() {
+                        let h = pv::fnv(&[last.tag]) ^ sink.step_bits(sink.steps.len() - 1).iter().fold(0u64, |a, &b| pv::splitmix(a ^ b));
+                        if seen.insert(h) {
+                            c.outcome(h);
+                        }
+                        if h % 8192 == 0 {
+                            c.sample(h ^ ctx.seed, || json!({"sub": cont, "family": f.name, "buffer": buf, "extra_capacity": extra, "real_capacity": sink.steps[0].cap, "ops": ops.iter().map(|&(t, h)| format!("{}:{}", HOW_NAMES[h as usize], f.types[t as usize])).collect::<Vec<_>>(), "result": floats(f, sink.step_bits(sink.steps.len() - 1))}));
+                        }
+                    }
+                    let mut p = l;
+                    loop {
+                        if p == 0 {
+                            break 'odo;
+                        }
+                        p -= 1;
+                        idx[p] += 1;
+                        if idx[p] < alphabet.len() {
+                            break;
+                        }
+                        idx[p] = 0;
+                    }
+                }
+            }
+            // states = distinct (element type, contents) reached from this (contents, shape), plus
+            // the initial one; non-trivial = non-empty containers
+            c.add(cont, seen.len() as u64 + 1, opsn, steps, if buf.is_empty() { 0 } else { seen.len() as u64 });
+            seq_total.fetch_add(seqs, std::sync::atomic::Ordering::Relaxed);
+            for (l, cp) in shapes {
+                c.note(&format!("{cont}/shape/len{l}-cap{cp}"), json!(true));
+            }
+        });
+        total.merge(c);
+        total.note(&format!("{cont}/chains_executed"), json!(seq_total.load(std::sync::atomic::Ordering::Relaxed)));
+        total.exhaustive(cont, true, &format!(
+            "5 original types x 29 contents (all for len<=2, the 4 rotations of the colour set for len 3 and 4){} x every chain of 1..={chain} operations from {{from_color, from_color_unclamped, into_color, {}}} x 6 target types (U, its 5 targets; incl. the current type); pointer, length{} and every element compared after every operation",
+            if cont == "vec" { " x capacity len..=len+3 (read back from the real Vec)" } else { "" },
+            if cont == "vec" { "cast::map_vec_in_place" } else { "cast::map_slice_box_in_place" },
+            if cont == "vec" { ", capacity" } else { "" }
+        ));
+    }
+}
+
+
+// ---------------------------------------------------------------------------------------
+// Miri oracle (thorough tier): the same executor, a smaller bound, run under
+// `cargo +nightly miri run` (several processes in parallel, one slice of the work each); only
+// memory safety / aliasing is the question there, so the enumeration is by typestate (all
+// sequences, unmerged) and the flags (address, length, neighbours, restore's return value,
+// typestate) are checked, not the values.
+
+const MIRI_MAXLEN: usize = 2;
+/// (number of target types, depth): the union of both spaces is enumerated
+const MIRI_CONFIGS: [(usize, usize); 2] = [(1, 4), (2, 3)];
+const MIRI_OCHAIN: usize = 2;
+const MIRI_OTARGETS: usize = 2;
+
+static QUIET: std::sync::atomic::AtomicBool = std::sync::atomic::AtomicBool::new(false);
+
+fn miri_buffers(f: &Fam, maxlen: usize) -> Vec<Vec<u8>> {
+    if f.kind == "slice" {
+        (0..=maxlen).map(|l| (0..l).map(|i| [2u8, 0, 1, 3][i % 4]).collect()).collect()
+    } else {
+        vec![vec![2]]
+    }
+}
+
+fn miri_case(f: &Fam, buf: &[u8], ops: &[Op], sink: &mut Sink) -> Result<(), String> {
+    let init = init_key(f, buf);
+    (f.exec)(init.bits(), &f.fixed, ops, sink);
+    if sink.err.is_some() || sink.steps.len() != ops.len() + 1 {
+        return Err(format!("executor: {:?}, {} observations", sink.err, sink.steps.len()));
+    }
+    for (k, st) in sink.steps.iter().enumerate() {
+        if !(st.addr_ok && st.len_ok && st.sent_ok && st.ret_ok) {
+            return Err(format!("step {k}: {st:?}"));
+        }
+    }
+    Ok(())
+}
+
+/// Compact case line (formatting through serde/fmt costs 0.2 s per line under Miri):
+/// `CASE g <family index> <buffer digits>- <op tokens>` / `CASE v|b <family index> <buffer>- <extra> <to><how>..`
+fn case_line_guard(fi: usize, buf: &[u8], ops: &[Op]) -> Vec<u8> {
+    let mut l: Vec<u8> = b"CASE g ".to_vec();
+    l.push(b'0' + fi as u8 / 10);
+    l.push(b'0' + fi as u8 % 10);
+    l.push(b' ');
+    for &b in buf {
+        l.push(b'0' + b);
+    }
+    l.push(b'-');
+    for &op in ops {
+        l.push(b' ');
+        let fl = |u: bool| if u { b'u' } else { b'c' };
+        match op {
+            Op::Start(t, u) => l.extend_from_slice(&[b'S', b'0' + t, fl(u)]),
+            Op::Deref => l.push(b'D'),
+            Op::Mutate(i) => l.extend_from_slice(&[b'M', b'0' + i]),
+            Op::Then(t, u) => l.extend_from_slice(&[b'T', b'0' + t, fl(u)]),
+            Op::Switch => l.push(b'W'),
+            Op::Restore => l.push(b'R'),
+            Op::Drop => l.push(b'X'),
+            Op::Forget => l.push(b'F'),
+        }
+    }
+    l.push(b'\n');
+    l
+}
+fn parse_case_line(fams: &[Fam], line: &str) -> Option<Value> {
+    let mut it = line.strip_prefix("CASE ")?.split(' ');
+    let which = it.next()?;
+    let fi: usize = it.next()?.parse().ok()?;
+    let f = fams.get(fi)?;
+    let buf: Vec<u8> = it.next()?.trim_end_matches('-').bytes().map(|b| b - b'0').collect();
+    if which == "g" {
+        let mut ops = vec![];
+        for t in it {
+            let b = t.as_bytes();
+            ops.push(match b[0] {
+                b'S' => Op::Start(b[1] - b'0', b[2] == b'u'),
+                b'D' => Op::Deref,
+                b'M' => Op::Mutate(b[1] - b'0'),
+                b'T' => Op::Then(b[1] - b'0', b[2] == b'u'),
+                b'W' => Op::Switch,
+                b'R' => Op::Restore,
+                b'X' => Op::Drop,
+                b'F' => Op::Forget,
+                _ => return None,
+            });
+        }
+        Some(json!({"sub": "guard", "miri": true, "family": f.name, "kind": f.kind, "buffer": buf, "ops": render_ops(f, &ops)}))
+    } else {
+        let extra: usize = it.next()?.parse().ok()?;
+        let ops: Vec<String> = it.map(|t| { let b = t.as_bytes(); format!("{}:{}", HOW_NAMES[(b[1] - b'0') as usize], f.types[(b[0] - b'0') as usize]) }).collect();
+        Some(json!({"sub": if which == "v" { "vec" } else { "box" }, "miri": true, "family": f.name, "buffer": buf, "extra_capacity": extra, "ops": ops}))
+    }
+}
+
+/// `c13 miri-inner <job> <njobs>`: the part `job` of the Miri enumeration; prints the case
+/// before running it, so that the last line names the case in which Miri aborted.
+fn miri_inner(args: &[String]) -> i32 {
+    use std::io::Write;
+    let num = |i: usize, d: usize| args.get(i).and_then(|s| s.parse::<usize>().ok()).unwrap_or(d);
+    let (job, njobs) = (num(0, 0), num(1, 1).max(1));
+    let (maxlen, ochain, ntargets) = (MIRI_MAXLEN, MIRI_OCHAIN, MIRI_OTARGETS);
+    QUIET.store(num(2, 0) == 1, std::sync::atomic::Ordering::Relaxed);
+    let fams = families();
+    let mut seqs = 0u64;
+    let mut opsn = 0u64;
+    let mut sink = Sink::default();
+    let mut unit = 0usize;
+    let out = std::io::stdout();
+    // guard units: (family, buffer), the expensive ones (longest buffers) first
+    let mut units: Vec<(usize, Vec<u8>, usize, usize)> = vec![];
+    for (fi, f) in fams.iter().enumerate() {
+        for buf in miri_buffers(f, maxlen) {
+            for (nt, depth) in MIRI_CONFIGS {
+                units.push((fi, buf.clone(), nt, depth));
+            }
+        }
+    }
+    units.sort_by_key(|(fi, b, _, d)| (std::cmp::Reverse(*d), std::cmp::Reverse(b.len()), *fi));
+    for (fi, buf, ntargets, depth) in &units {
+        let (ntargets, depth) = (*ntargets, *depth);
+        unit += 1;
+        if (unit - 1) % njobs != job {
+            continue;
+        }
+        let f = &fams[*fi];
+        fn rec(out: &std::io::Stdout, fi: usize, f: &Fam, buf: &[u8], flav: u8, nt: u8, depth: usize, path: &mut Vec<Op>, sink: &mut Sink, seqs: &mut u64, opsn: &mut u64) -> Result<(), String> {
+            if path.len() == depth {
+                return Ok(());
+            }
+            let mut ops = vec![];
+            ops_for(flav, buf.len(), nt, &mut ops);
+            for op in ops {
+                path.push(op);
+                if !QUIET.load(std::sync::atomic::Ordering::Relaxed) {
+                    let _ = out.lock().write_all(&case_line_guard(fi, buf, path));
+                }
+                miri_case(f, buf, path, sink)?;
+                *seqs += 1;
+                *opsn += path.len() as u64;
+                let st = sink.steps.last().unwrap();
+                rec(out, fi, f, buf, st.flav, nt, depth, path, sink, seqs, opsn)?;
+                path.pop();
+            }
+            Ok(())
+        }
+        let mut path = vec![];
+        if let Err(e) = rec(&out, *fi, f, buf, OWNED, (ntargets as u8).min(f.nt()), depth, &mut path, &mut sink, &mut seqs, &mut opsn) {
+            println!("MIRI-INNER-MISMATCH {e}");
+            return 1;
+        }
+    }
+    // owning forms: every shape len 0..=maxlen x extra capacity 0..=1, chains up to `ochain`
+    let mut osink = OSink::default();
+    let mut oseqs = 0u64;
+    for (fi, f) in fams.iter().enumerate().filter(|(_, f)| f.kind == "slice") {
+        let mut alphabet = vec![];
+        for how in 0..4u8 {
+            for to in 0..=(ntargets as u8).min(f.nt()) {
+                alphabet.push((to, how));
+            }
+        }
+        for cont in ["vec", "box"] {
+            unit += 1;
+            if (unit - 1) % njobs != job {
+                continue;
+            }
+            for buf in miri_buffers(f, maxlen) {
+                for extra in 0..(if cont == "vec" { 2 } else { 1 }) {
+                    for l in 1..=ochain {
+                        let total = alphabet.len().pow(l as u32);
+                        for mut n in 0..total {
+                            let mut ops = vec![];
+                            for _ in 0..l {
+                                ops.push(alphabet[n % alphabet.len()]);
+                                n /= alphabet.len();
+                            }
+                            let mut line: Vec<u8> = vec![b'C', b'A', b'S', b'E', b' ', if cont == "vec" { b'v' } else { b'b' }, b' ', b'0' + fi as u8 / 10, b'0' + fi as u8 % 10, b' '];
+                            for &b in &buf {
+                                line.push(b'0' + b);
+                            }
+                            line.extend_from_slice(&[b'-', b' ', b'0' + extra as u8]);
+                            for &(t, h) in &ops {
+                                line.extend_from_slice(&[b' ', b'0' + t, b'0' + h]);
+                            }
+                            line.push(b'\n');
+                            let _ = out.lock().write_all(&line);
+                            let mut init: Vec<u64> = vec![];
+                            for &ci in &buf {
+                                init.extend_from_slice(&f.colours[ci as usize]);
+                            }
+                            (if cont == "vec" { f.exec_vec } else { f.exec_box })(&init, extra, &ops, &mut osink);
+                            let s0 = osink.steps[0];
+                            if osink.steps.iter().any(|s| s.ptr != s0.ptr || s.len != s0.len || s.cap != s0.cap) {
+                                println!("MIRI-INNER-MISMATCH raw parts changed: {:?}", osink.steps);
+                                return 1;
+                            }
+                            oseqs += 1;
+                            opsn += l as u64;
+                        }
+                    }
+                }
+            }
+        }
+    }
+    println!("MIRI-INNER-OK guard_sequences={seqs} owned_chains={oseqs} ops={opsn}");
+    0
+}
+
+/// `c13 miri-case <json>`: one case under Miri, for replays.
+fn miri_single(arg: &str) -> i32 {
+    let Some(mut case) = pv_json(arg) else { return 3 };
+    case["miri"] = json!(false);
+    let fams = families();
+    let mut c = Collector::new();
+    replay(&mut c, &json!({"case": case}), &fams);
+    if c.viol.is_empty() {
+        println!("MIRI-INNER-OK single case");
+        0
+    } else {
+        1
+    }
+}
+
+fn pv_json(s: &str) -> Option<Value> {
+    s.parse::<Value>().ok()
+}
+
+fn run_miri(root: &std::path::Path, args: &[String]) -> Result<(bool, String, String), String> {
+    use std::process::{Command, Stdio};
+    let mut cmd = Command::new("cargo");
+    cmd.args(["+nightly", "miri", "run", "--offline", "-q", "-p", "c13", "--"]).args(args);
+    cmd.current_dir(root.join("harness")).env_remove("RUSTUP_TOOLCHAIN").env_remove("RUSTFLAGS").env("MIRIFLAGS", "");
+    cmd.stdin(Stdio::null()).stdout(Stdio::piped()).stderr(Stdio::piped());
+    let out = cmd.output().map_err(|e| format!("cannot start cargo miri: {e}"))?;
+    Ok((out.status.success(), String::from_utf8_lossy(&out.stdout).into_owned(), String::from_utf8_lossy(&out.stderr).into_owned()))
+}
+
+fn scrub(s: &str) -> String {
+    // remove allocation ids, tags and addresses so that one defect gives one signature
+    let mut out = String::new();
+    let mut it = s.chars().peekable();
+    while let Some(ch) = it.next() {
+        if ch.is_ascii_digit() {
+            while it.peek().map_or(false, |c| c.is_ascii_alphanumeric()) {
+                it.next();
+            }
+            out.push('#');
+        } else {
+            out.push(ch);
+        }
+    }
+    out.chars().take(160).collect()
+}
+
+/// Turn a failed Miri process into a violation. Returns false if Miri itself could not be run.
+fn miri_report(c: &mut Collector, fams: &[Fam], stdout: &str, stderr: &str) -> bool {
+    let last_case = stdout.lines().rev().find(|l| l.starts_with("CASE ")).and_then(|l| parse_case_line(fams, l));
+    let ub = stderr.lines().find(|l| l.starts_with("error")).unwrap_or("");
+    let mism = stdout.lines().find(|l| l.starts_with("MIRI-INNER-MISMATCH"));
+    match (last_case, ub.is_empty() && mism.is_none()) {
+        (Some(mut case), false) => {
+            let kind = case["sub"].as_str().unwrap_or("?").to_string();
+            let fam = case["family"].as_str().unwrap_or("?").to_string();
+            let what = if mism.is_some() { "flags".to_string() } else { scrub(ub) };
+            case["observed"] = json!({"miri": ub, "mismatch": mism, "stderr_tail": stderr.lines().rev().take(25).collect::<Vec<_>>().into_iter().rev().collect::<Vec<_>>()});
+            case["expected"] = json!("no undefined behaviour, same address/length, neighbours untouched");
+            c.violation(&format!("C13/miri/{kind}/{fam}/{what}"), 1.0, || case);
+            true
+        }
+        _ => false,
+    }
+}
+
+fn miri_check(ctx: &Ctx, total: &mut Collector, fams: &[Fam]) {
+    if ctx.tier != Tier::Thorough || !ctx.wants("miri") {
+        return;
+    }
+    let njobs = pv::par::threads().clamp(1, 15);
+    // the first job builds the Miri artefacts; the others wait on cargo's lock, then run in parallel
+    let outs = pv::par::map_chunks(njobs, |job| run_miri(&ctx.root, &["miri-inner".to_string(), job.to_string(), njobs.to_string()]));
+    let mut c = Collector::new();
+    let (mut cases, mut opsn, mut ok_jobs) = (0u64, 0u64, 0usize);
+    for o in outs {
+        match o {
+            Err(e) => {
+                total.warn(format!("miri: not run ({e})"));
+                return;
+            }
+            Ok((ok, stdout, stderr)) => {
+                if !ok && !miri_report(&mut c, fams, &stdout, &stderr) {
+                    total.warn(format!("miri: could not be run: {}", stderr.lines().rev().take(6).collect::<Vec<_>>().join(" | ")));
+                    return;
+                }
+                cases += stdout.lines().filter(|l| l.starts_with("CASE ")).count() as u64;
+                if let Some(l) = stdout.lines().find(|l| l.starts_with("MIRI-INNER-OK")) {
+                    opsn += l.split("ops=").nth(1).and_then(|s| s.trim().parse::<u64>().ok()).unwrap_or(0);
+                    ok_jobs += 1;
+                }
+            }
+        }
+    }
+    c.note("miri/jobs", json!({"jobs": njobs, "completed_without_error": ok_jobs, "cases": cases, "operations": opsn}));
+    c.add("miri", cases, opsn.max(cases), cases, cases);
+    c.exhaustive("miri", ok_jobs == njobs, &format!("under Miri (Stacked Borrows, default flags): 5 original types x {{slice of length 0..={MIRI_MAXLEN}; single value}} x ALL guard operation sequences (by typestate, unmerged) up to depth 4 with the first target type and up to depth 3 with the first two target types, and Vec / Box<[T]> owning chains up to {MIRI_OCHAIN} over 3 element types and every shape len 0..={MIRI_MAXLEN} x extra capacity 0..=1; flags (address, length, neighbours, restore's reference) checked, any undefined behaviour aborts the job and is reported with the case being executed"));
+    total.merge(c);
+}
+
+// ---------------------------------------------------------------------------------------
+// replay
+
+fn replay(c: &mut Collector, rep: &Value, fams: &[Fam]) {
+    let case = &rep["case"];
+    let sub = case["sub"].as_str().unwrap_or("");
+    let fname = case["family"].as_str().unwrap_or("");
+    let buf: Vec<u8> = case["buffer"].as_array().map(|a| a.iter().map(|v| v.as_u64().unwrap_or(0) as u8).collect()).unwrap_or_default();
+    let ops_s: Vec<String> = case["ops"].as_array().map(|a| a.iter().map(|v| v.as_str().unwrap_or("").to_string()).collect()).unwrap_or_default();
+    if case["miri"] == json!(true) {
+        // re-run this one case under Miri
+        let mut small = case.clone();
+        if let Some(o) = small.as_object_mut() {
+            o.remove("observed");
+            o.remove("expected");
+        }
+        let arg = small.to_string();
+        let root = std::path::PathBuf::from(std::env::var("VERIF_ROOT").unwrap_or_else(|_| "/verif".into()));
+        match run_miri(&root, &["miri-case".to_string(), arg]) {
+            Err(e) => {
+                eprintln!("replay: {e}");
+                std::process::exit(3)
+            }
+            Ok((ok, stdout, stderr)) => {
+                println!("{}", stdout.lines().rev().take(12).collect::<Vec<_>>().into_iter().rev().collect::<Vec<_>>().join("\n"));
+                if !ok {
+                    println!("{}", stderr.lines().rev().take(30).collect::<Vec<_>>().into_iter().rev().collect::<Vec<_>>().join("\n"));
+                    let sig = rep["signature"].as_str().unwrap_or("C13/miri").to_string();
+                    c.violation(&sig, 1.0, || case.clone());
+                }
+            }
+        }
+        return;
+    }
+    match sub {
+        "guard" => {
+            let kind = case["kind"].as_str().unwrap_or("slice");
+            let Some(f) = fams.iter().find(|f| f.name == fname && f.kind == kind) else {
+                eprintln!("replay: unknown family {fname}/{kind}");
+                std::process::exit(3)
+            };
+            let ops: Vec<Op> = ops_s
+                .iter()
+                .map(|s| {
+                    parse_op(f, s).unwrap_or_else(|| {
+                        eprintln!("replay: bad op {s}");
+                        std::process::exit(3)
+                    })
+                })
+                .collect();
+            let init = init_key(f, &buf);
+            // applicability of every operation (typestate only; the values do not matter)
+            let mut flav = OWNED;
+            for &op in &ops {
+                let applicable = match op {
+                    Op::Start(..) => flav == OWNED,
+                    Op::Mutate(i) => flav != OWNED && (i as usize) < buf.len(),
+                    _ => flav != OWNED,
+                };
+                if !applicable {
+                    eprintln!("replay: op {op:?} not applicable in state {}", flav_name(flav));
+                    std::process::exit(3);
+                }
+                flav = match op {
+                    Op::Start(_, u) | Op::Then(_, u) => if u { UNCLAMPED } else { CLAMPED },
+                    Op::Switch => if flav == CLAMPED { UNCLAMPED } else { CLAMPED },
+                    Op::Restore | Op::Drop | Op::Forget => OWNED,
+                    _ => flav,
+                };
+            }
+            println!("replaying {} {} buffer {:?} ops {:?}", f.name, f.kind, buf, render_ops(f, &ops));
+            let mut sink = Sink::default();
+            let _ = check_all_steps(c, f, &buf, &init, &ops, &mut sink, "replay", true);
+        }
+        "vec" | "box" => {
+            let Some(f) = fams.iter().find(|f| f.name == fname && f.kind == "slice") else {
+                eprintln!("replay: unknown family {fname}");
+                std::process::exit(3)
+            };
+            let extra = case["extra_capacity"].as_u64().unwrap_or(0) as usize;
+            let ops: Vec<(u8, u8)> = ops_s
+                .iter()
+                .map(|s| {
+                    let (h, t) = s.split_once(':').unwrap_or((s, ""));
+                    let how = HOW_NAMES.iter().position(|n| *n == h);
+                    let to = f.types.iter().position(|n| *n == t);
+                    match (to, how) {
+                        (Some(t), Some(h)) => (t as u8, h as u8),
+                        _ => {
+                            eprintln!("replay: bad op {s}");
+                            std::process::exit(3)
+                        }
+                    }
+                })
+                .collect();
+            println!("replaying {} {} buffer {:?} extra capacity {} ops {:?}", f.name, sub, buf, extra, ops_s);
+            let mut sink = OSink::default();
+            owned_run(c, f, sub, &buf, extra, &ops, &mut sink, true);
+        }
+        other => {
+            eprintln!("replay: unknown sub-check {other}");
+            std::process::exit(3);
+        }
+    }
+}
+
+// ---------------------------------------------------------------------------------------
+
+/// Self-test of the machinery on hand-checked facts (a wrong executor/model is a machinery failure).
+fn selftest(fams: &[Fam]) {
+    let f = &fams[0]; // Srgb<f32> slice
+    let fail = |m: String| -> ! {
+        eprintln!("MACHINERY-FAILURE: C13 self-test: {m}");
+        std::process::exit(3)
+    };
+    // red -> Hsv is (0, 1, 1); shifting nothing and dropping gives red back
+    let red = mkbits(false, &[1.0, 0.0, 0.0]);
+    let mut sink = Sink::default();
+    let hsv = f.types.iter().position(|t| *t == "Hsv").unwrap() as u8;
+    (f.exec)(&red, &f.fixed, &[Op::Start(hsv, false), Op::Deref, Op::Drop], &mut sink);
+    if sink.steps.len() != 4 {
+        fail(format!("expected 4 observations, got {}", sink.steps.len()));
+    }
+    let want_hsv = mkbits(false, &[0.0, 1.0, 1.0]);
+    if sink.step_bits(1) != &want_hsv[..] || sink.step_bits(2) != &want_hsv[..] || sink.step_bits(3) != &red[..] || sink.step_bits(0) != &red[..] {
+        fail(format!("red -> Hsv -> drop observed {:?}", (0..4).map(|k| floats(f, sink.step_bits(k))).collect::<Vec<_>>()));
+    }
+    let s = sink.steps[1];
+    if (s.tag, s.flav) != (hsv, CLAMPED) || !s.addr_ok || !s.len_ok || !s.sent_ok {
+        fail(format!("guard observation flags {s:?}"));
+    }
+    // the model agrees with this hand-checked trace
+    let mut k = Key { tag: 0, flav: OWNED, n: 3, bits: [0; MAXB] };
+    k.bits[..3].copy_from_slice(&red);
+    let k1 = model_apply(f, &k, Op::Start(hsv, false));
+    if k1.bits() != &want_hsv[..] || model_apply(f, &k1, Op::Drop).bits() != &red[..] {
+        fail("model disagrees with red -> Hsv -> red".into());
+    }
+    // clamped and unclamped restore differ on an out-of-range mutation (the model separates them)
+    let a = model_apply(f, &model_apply(f, &k1, Op::Mutate(0)), Op::Drop);
+    let b = model_apply(f, &model_apply(f, &model_apply(f, &k1, Op::Switch), Op::Mutate(0)), Op::Drop);
+    if a.bits() == b.bits() {
+        fail("clamped and unclamped restore of an out-of-range colour do not differ in the model".into());
+    }
+}
+
 fn main() {
-    eprintln!("C13: check not built yet");
-    std::process::exit(3);
+    pv::main_guard(real_main)
+}
+
+fn real_main() -> i32 {
+    let args: Vec<String> = std::env::args().skip(1).collect();
+    if args.first().map(|s| s.as_str()) == Some("miri-inner") {
+        return miri_inner(&args[1..]);
+    }
+    if args.first().map(|s| s.as_str()) == Some("miri-bench") {
+        let fams = families();
+        let f = &fams[0];
+        let mut sink = Sink::default();
+        let n: usize = args[1].parse().unwrap();
+        let which: usize = args[2].parse().unwrap();
+        let init = init_key(f, &[]);
+        let ops: Vec<Op> = match which { 0 => vec![], 1 => vec![Op::Start(1, false)], 2 => vec![Op::Start(1, false), Op::Deref, Op::Deref, Op::Deref], _ => vec![Op::Start(1, false), Op::Then(2, false), Op::Then(1, true), Op::Restore] };
+        for _ in 0..n { (f.exec)(init.bits(), &f.fixed, &ops, &mut sink); }
+        println!("done {}", sink.steps.len());
+        return 0;
+    }
+    if args.first().map(|s| s.as_str()) == Some("miri-case") {
+        return miri_single(args.get(1).map(|s| s.as_str()).unwrap_or(""));
+    }
+    let (ctx, mode) = Ctx::from_args("C13");
+    let fams = families();
+    selftest(&fams);
+    if let Mode::Replay(rep) = mode {
+        let mut c = Collector::new();
+        replay(&mut c, &rep, &fams);
+        return ctx.finish_replay(c);
+    }
+    let depth = ctx.tier.pick(5, 6);
+    let udepth = 4;
+    let chain = ctx.tier.pick(3, 4);
+    let mut total = Collector::new();
+    guard_checks(&ctx, &mut total, &fams, depth, udepth, 3);
+    owned_checks(&ctx, &mut total, &fams, chain);
+    miri_check(&ctx, &mut total, &fams);
+    ctx.finish(
+        total,
+        "model_checking",
+        "guard-*: a state is a canonical (typestate, buffer bit pattern) pair = (Owned | clamping guard over T | unclamped guard over T, contents); enumerated breadth first over ALL operation sequences to the stated depth from every initial buffer, each edge executed by rebuilding the buffer and replaying the whole sequence on the real palette guards and compared with a reference model built from the ordinary out-of-place conversions; vec/box: a state is (shape, contents, chain of owning conversions). Non-trivial = non-empty buffer and (a guard is alive or the contents differ from the initial buffer), resp. non-empty container",
+        &[
+            "the ordinary out-of-place conversions (T::from_color / T::from_color_unclamped) are the oracle here; their own correctness is C01-C03's subject",
+            "merging is sound because the guards are repr(transparent) wrappers of Option<&mut T>: (guard type, buffer contents) determines every future; cross-checked by the unmerged run (equal reachable state sets)",
+            "values are compared bit for bit, all NaNs being identified",
+            "a clamping guard (FromColorMutGuard) restores with U::from_color, an unclamped guard with U::from_color_unclamped, as their documentation says; the property only fixes 'one step back from the current contents'",
+        ],
+    )
 }
